@@ -31,6 +31,11 @@ AbsentNames(t, f) ==
            homogeneous == \A j \in 1..Len(f) : NodeAt(TreeOf(t), f[j]).pn = nd.pn
        IN IF homogeneous /\ nd.k # "prim" THEN valid \ present ELSE {}
 
+HeteroNames(t, f) ==
+  LET nds == [j \in 1..Len(f) |-> NodeAt(TreeOf(t), f[j])]
+      names == UNION {ValidNames(SchOf(t), nds[j]) : j \in 1..Len(f)}
+  IN {nm \in names : \E j \in 1..Len(f) : nm \notin ValidNames(SchOf(t), nds[j])}
+
 EmitState(t, p, f) ==
   LET base == PathSteps(t, p)
       n == Len(f)
@@ -42,6 +47,8 @@ EmitState(t, p, f) ==
      /\ (allPrim => Emit(Case(t, "value", Append(base, Field("value")))))
      /\ (n > 0 => Emit(Case(t, "badname", Append(base, Field("zzNoSuchElement")))))
      /\ \A nm \in AbsentNames(t, f) : Emit(Case(t, "absent", Append(base, Field(nm))))
+     \* a focus of several types (resources in a Bundle, contained resources): a name that only some of the types have is an error
+     /\ \A nm \in HeteroNames(t, f) : Emit(Case(t, "hetero", Append(base, Field(nm))))
      /\ (Len(p) = 0 =>
            /\ Emit(Case(t, "mismatch", <<Root(IF TreeOf(t).ty = "Patient" THEN "Observation" ELSE "Patient"), Field("id")>>))
            /\ Emit(Case(t, "mismatch", <<Root(IF TreeOf(t).ty = "Patient" THEN "Observation" ELSE "Patient")>>)))
